@@ -21,14 +21,14 @@ RULE = ('simulated BAMs with unique read ids: 1..12 contigs with lengths around 
 ASSUMPTIONS = ['secondary/supplementary alignments are outside the claim (not generated)',
                'mate number is only compared for pairs whose mates are both mapped to the same contig (the third-party mate iterator de-pairs the others)',
                'worker schedules are sampled: observed completion orders are counted, not enumerated']
-MIN_NONTRIVIAL = {'quick': 40, 'thorough': 400}
+MIN_NONTRIVIAL = {'quick': 40, 'thorough': 1200}
 REQUIRED_MONITORS = ['lib:secondary_or_supplementary', 'run:single_process', 'run:multiprocess', 'records:compared', 'jobs:observed', 'run:no_rejects', 'layout:large_after_small',
                      'layout:lone_small_contig', 'lib:unmapped_pairs', 'lib:half_mapped', 'lib:orphans']
 SHARD_TIMEOUT = {'quick': 900, 'thorough': 7200}
 
 
 def gen_cases(tier, seed):
-    n = 128 if tier == 'quick' else 1000
+    n = 128 if tier == 'quick' else 4000
     return [{'i': i, 'seed': seed} for i in range(n)]
 
 
